@@ -113,6 +113,18 @@ fn main() {
             }
             std::process::exit(0);
         }
+        "c08-encfile" => {
+            // debugging aid: what does the encrypted-file stage's file #i load to?
+            let i: u64 = args.get(2).and_then(|x| x.parse().ok()).unwrap_or(0);
+            match props::c08::gen_encrypted_file(1, i) {
+                None => println!("not built"),
+                Some(b) => match lopdf::Document::load_mem(&b) {
+                    Err(e) => println!("load error {:?}", e),
+                    Ok(d) => println!("{} bytes, {} objects, encrypted={}, object 50 = {:?}", b.len(), d.objects.len(), d.is_encrypted(), d.objects.get(&(50, 0))),
+                },
+            }
+            std::process::exit(0);
+        }
         "c08-filtered" => {
             props::c08::filtered_child_main(&args[2..]);
             std::process::exit(0);
